@@ -12,7 +12,9 @@ EXPLANATION = (
     'list, integers, ratios (payload order numerator/denominator) read back as tokens of the same structure; the '
     'formatter chosen for each numeric payload; exact text of list skeletons (` . ` only before a non-pair tail); '
     'ten number spellings through the lexer; non-positive denominators are never built (C09-denominator-sign re- '
-    'run).')
+    'run). (real value classes) every test of a real payload against a constant of the real type (max_value, '
+    'infinity, is_nan ...) is explored both ways and the paths are checked on ten classes of reals: a finite real '
+    'prints as its own digits and nothing else. Characters incl. quote, backslash, #, |, tab and non-ASCII.')
 NOT_DECIDED = ("the round trip itself (read(print(v)) = v for every value), injectivity of printing, and std's float "
                "formatting/parsing — that is most of the property.")
 
